@@ -35,6 +35,15 @@ func calleeOf(call ssa.CallInstruction) *types.Func {
 
 // qname renders a *types.Func as "pkgpath.Func" or "pkgpath.Type.Method" (pointer-ness dropped).
 func qname(f *types.Func) string {
+	q := rawqname(f)
+	if a, ok := qnameAlias[q]; ok {
+		return a
+	}
+	return q
+}
+
+// rawqname is qname without rename resolution (see anchors.go).
+func rawqname(f *types.Func) string {
 	if f == nil {
 		return ""
 	}
